@@ -61,6 +61,19 @@ impl KFold {
     }
 }
 
+/// Verification hooks (cfg `smartcore_verif` only): expose the private fold index lists and masks.
+#[cfg(smartcore_verif)]
+impl KFold {
+    /// `test_indices` (one fresh shuffle per call when `shuffle` is on)
+    pub fn verif_test_indices<T: RealNumber, M: Matrix<T>>(&self, x: &M) -> Vec<Vec<usize>> {
+        self.test_indices(x)
+    }
+    /// `test_masks` (one fresh shuffle per call when `shuffle` is on)
+    pub fn verif_test_masks<T: RealNumber, M: Matrix<T>>(&self, x: &M) -> Vec<Vec<bool>> {
+        self.test_masks(x)
+    }
+}
+
 impl Default for KFold {
     fn default() -> KFold {
         KFold {
